@@ -265,6 +265,40 @@ class Judge:
         return "ok"
 
 
+class _Sink:
+    """A stand-in for ctx used by the binding self-test: records instead of reporting."""
+
+    def __init__(self):
+        self.hits = []
+
+    def violation(self, signature, what, replay_obj):
+        self.hits.append(signature)
+
+    def drift(self, module, what):
+        pass
+
+
+def binding_selftest(kept):
+    """Flip one expected value of a replayed case (by twice the tolerance) and one observed fvar bound: the
+    judge must reject both, otherwise the comparison is not live."""
+    exp, req, res = kept
+    bad = json.loads(json.dumps(exp))
+    k = len(bad["norm"]) // 2
+    shifted = fr(bad["norm"][k]) + 2 * fr(bad["tolU"]) / UNIT
+    bad["norm"][k] = [shifted.numerator, shifted.denominator]
+    j1 = Judge(_Sink())
+    j1.font(bad, req, res)
+    j2 = Judge(_Sink())
+    j2.api(bad, req, res)
+    res2 = json.loads(json.dumps(res))
+    res2["font"]["fvar"][2] += 1
+    j3 = Judge(_Sink())
+    j3.font(exp, req, res2)
+    if not (j1.ctx.hits and j2.ctx.hits and j3.ctx.hits):
+        raise common.ToolError("binding self-test failed: a corrupted expectation/observation was accepted (%s %s %s)" %
+                               (j1.ctx.hits, j2.ctx.hits, j3.ctx.hits))
+
+
 # ----------------------------------------------------------------------------- TLC
 
 
@@ -367,15 +401,35 @@ def main(ctx):
         ev.evaluations = judge.n_eval
         return
 
+    # ---- fixture axis statements (needed before TLC: they ride in the same run)
+    skipped = []
+    fcases, gfiles = collect_fixture_cases(ctx)
+    fpath = ctx.path("fixtures", "cases.ndjson")
+    with open(fpath, "w") as f:
+        for cs in fcases:
+            f.write(json.dumps(cs) + "\n")
+
     # ---- (M) + generator
+    main_cfg = "CoordsQuick.cfg" if ctx.quick else "CoordsThorough.cfg"
+    try:
+        cases, r1 = tlc_cases(ctx, main_cfg, 4, 900 if ctx.quick else 3000, env={"C08_CASES": fpath})
+        fexps = [c for c in cases if c["id"][0] == "fixture"]
+        cases = [c for c in cases if c["id"][0] != "fixture"]
+    except common.ToolError as ex:
+        if "verflow" not in str(ex):
+            raise
+        # some fixture does not fit 32-bit arithmetic: generator alone, then the fixtures one by one
+        common.log("combined TLC run failed on a fixture (%s); separating" % str(ex)[:160])
+        empty = ctx.path("fixtures", "empty.ndjson")
+        open(empty, "w").close()
+        cases, r1 = tlc_cases(ctx, main_cfg, 4, 900 if ctx.quick else 3000, env={"C08_CASES": empty})
+        fexps = run_file_cases(ctx, fcases, skipped)
     if ctx.quick:
-        cases, r1 = tlc_cases(ctx, "CoordsQuick.cfg", 4, 900)
-        max_compiles = 1200
+        max_compiles = 1000
     else:
-        cases, r1 = tlc_cases(ctx, "CoordsThorough.cfg", 4, 3000)
         c5, r5 = tlc_cases(ctx, "CoordsThorough5.cfg", 4, 1800)
         cases += c5
-        max_compiles = 12000
+        max_compiles = 10000
     n_cases = len(cases)
     ev.exhaustive = True
     bad = [c for c in cases if not c.get("valid") or not c.get("ok")]
@@ -390,6 +444,7 @@ def main(ctx):
     n_compiled = 0
     n_requests = 0
     shapes = {}
+    kept = None
     CHUNK = 4000
     for c0 in range(0, len(cases), CHUNK):
         reqs, owner = [], []
@@ -415,6 +470,9 @@ def main(ctx):
                 offnode = any(u not in nodes_u for u in exp["case"]["grid"])
                 if not exp["identity"] and offnode and (res.get("font") or {}).get("outcome") == "ok":
                     ev.nontrivial_add(json.dumps(exp["id"]))
+                if kept is None and not exp["identity"] and (res.get("font") or {}).get("outcome") == "ok" \
+                        and (res.get("api") or {}).get("outcome") == "ok" and not ctx.violations:
+                    kept = (exp, req, res)
                 if not exp["identity"] and len(exp["nodes"]) >= 3:
                     ev.sample({"axis": {k: exp["case"][k] for k in ("amin", "adef", "amax", "map")},
                                "order": req["id"][1], "fvar": (res.get("font") or {}).get("fvar"),
@@ -431,12 +489,15 @@ def main(ctx):
             cases[i] = None                      # free the expectations that have been judged
         common.log("  %d/%d cases replayed" % (min(c0 + CHUNK, len(cases)), len(cases)))
     ev.extra["replay_requests"] = n_requests
+    if kept is not None:
+        binding_selftest(kept)
+        ev.extra["binding_selftest"] = "corrupted expected normalized value and corrupted fvar bound both rejected"
     ev.extra["case_shapes"] = {"%s/%s/%s" % k: v for k, v in sorted(shapes.items())}
     ev.extra["generated_cases"] = n_cases
     ev.extra["generated_compiles"] = n_compiled
 
     # ---- (O) fixtures
-    fixture_part(ctx, judge, workdir)
+    fixture_part(ctx, judge, workdir, fcases, fexps, gfiles, skipped)
 
     ev.traces = judge.n_api + judge.n_font
     ev.evaluations = judge.n_eval
@@ -496,17 +557,8 @@ def glyphs_cases(ctx, files):
 
 
 def run_file_cases(ctx, fcases, skipped):
-    """Expected values for fixture cases from TLC (Source = "file")."""
-    path = ctx.path("fixtures", "cases.ndjson")
-    with open(path, "w") as f:
-        for cs in fcases:
-            f.write(json.dumps(cs) + "\n")
-    try:
-        exps, _ = tlc_cases(ctx, "CoordsFile.cfg", 2, 900, env={"C08_CASES": path})
-        return exps
-    except common.ToolError as ex:
-        # 32-bit overflow on some fixture: evaluate the fixtures one by one and skip the ones TLC cannot hold
-        common.log("fixtures in one TLC run failed (%s); running them one by one" % str(ex)[:160])
+    """Expected values for fixture cases from TLC (CoordsFile.cfg), one fixture axis per run; a fixture whose
+    coordinates overflow TLC's 32-bit integers is skipped (and listed)."""
     exps = []
     for n, cs in enumerate(fcases):
         p1 = ctx.path("fixtures", "case%d.ndjson" % n)
@@ -523,9 +575,7 @@ def run_file_cases(ctx, fcases, skipped):
     return exps
 
 
-def fixture_part(ctx, judge, workdir):
-    ev = ctx.ev
-    skipped = []
+def collect_fixture_cases(ctx):
     fcases = []
     for rel in common.fixtures(exts=(".designspace",)):
         try:
@@ -540,9 +590,13 @@ def fixture_part(ctx, judge, workdir):
         rest = rest[:25]
     gfiles = prefer + rest
     fcases += glyphs_cases(ctx, gfiles)
+    return fcases, gfiles
+
+
+def fixture_part(ctx, judge, workdir, fcases, exps, gfiles, skipped):
+    ev = ctx.ev
     n_ok = 0
     if fcases:
-        exps = run_file_cases(ctx, fcases, skipped)
         by_id = {json.dumps(e["id"]): e for e in exps}
         reqs, metas = [], []
         for cs in fcases:
